@@ -218,7 +218,7 @@ func runC04(c *core.Ctx) {
 	// ---- R04.2
 	type side struct {
 		pkg, fn, stream string
-		writer           bool
+		writer          bool
 	}
 	sigSides := []side{{"pwr", "DiffContext.WritePatch", "signatureWriter", true}, {"pwr", "ReadSignature", "signatureReader", false}}
 	patchSides := []side{{"pwr", "DiffContext.WritePatch", "patchWriter", true}, {"pwr/rediff", "context.Optimize", "PatchWriter", true},
